@@ -184,10 +184,19 @@ def r_who_cancel(ctx: Ctx, rule: str):
             src = None
             if isinstance(recv, ast.Name) and c.loops:
                 lp = c.loops[-1]
-                if isinstance(lp, ast.For) and isinstance(lp.target, ast.Name) and lp.target.id == recv.id and isinstance(lp.iter, ast.Name):
+                it0 = lp.iter if isinstance(lp, ast.For) else None
+                tgt_ok = isinstance(lp, ast.For) and isinstance(lp.target, ast.Name) and lp.target.id == recv.id
+                if isinstance(it0, ast.Call) and isinstance(it0.func, ast.Attribute) and not it0.args and isinstance(lp, ast.For):
+                    # `for task in tasks.values()` / `for task_id, task in tasks.items()` over the dictionary of look-ups
+                    if it0.func.attr == "values" and tgt_ok:
+                        it0 = it0.func.value
+                    elif it0.func.attr == "items" and isinstance(lp.target, ast.Tuple) and len(lp.target.elts) == 2 and isinstance(lp.target.elts[1], ast.Name) \
+                            and lp.target.elts[1].id == recv.id:
+                        it0, tgt_ok = it0.func.value, True
+                if tgt_ok and isinstance(it0, ast.Name):
                     from .shared import _caller_frame
 
-                    fr, fenv, it = _caller_frame(ctx, c.func, c.env, lp.iter)
+                    fr, fenv, it = _caller_frame(ctx, c.func, c.env, it0)
                     if fr is f and fenv is None and isinstance(it, ast.Name):
                         src = it.id
             if src is not None and src in sc.defs:
@@ -217,6 +226,15 @@ def _collects_all_lookups(ctx: Ctx, f: FuncInfo, name: str, varargs: Optional[st
         if gen.ifs:
             return False
         if isinstance(gen.target, ast.Name) and isinstance(gen.iter, ast.Name) and gen.iter.id == varargs and is_lookup(v.elt, gen.target.id):
+            return True
+        return False if isinstance(gen.iter, ast.Name) and gen.iter.id == varargs else None
+    if isinstance(v, ast.DictComp) and len(v.generators) == 1:
+        # {task_id: look-up(task_id) for task_id in task_ids}
+        gen = v.generators[0]
+        if gen.ifs:
+            return False
+        if isinstance(gen.target, ast.Name) and isinstance(gen.iter, ast.Name) and gen.iter.id == varargs and is_lookup(v.value, gen.target.id) \
+                and isinstance(v.key, ast.Name) and v.key.id == gen.target.id:
             return True
         return False if isinstance(gen.iter, ast.Name) and gen.iter.id == varargs else None
     if isinstance(v, ast.List) and not v.elts or (isinstance(v, ast.Call) and isinstance(v.func, ast.Name) and v.func.id == "list" and not v.args):
@@ -281,6 +299,10 @@ def value_sources(ctx: Ctx, frame: FuncInfo, env, e: Optional[ast.AST], _depth: 
                 out |= value_sources(ctx, frame, env, h[2], _depth + 1)
             elif h[0] == "iter":
                 out |= element_sources(ctx, frame, env, h[1], _depth + 1)
+            elif h[0] == "elt" and h[1][0] == "iter" and h[2] == 1 and isinstance(strip_cast(h[1][1]), ast.Call) and isinstance(strip_cast(h[1][1]).func, ast.Attribute) \
+                    and strip_cast(h[1][1]).func.attr == "items" and not strip_cast(h[1][1]).args:
+                # `for key, task in <dict>.items()`: a value of that dictionary
+                out |= element_sources(ctx, frame, env, strip_cast(h[1][1]).func.value, _depth + 1)
             else:
                 out.add("?")
         return out
@@ -326,6 +348,13 @@ def element_sources(ctx: Ctx, frame: FuncInfo, env, coll: Optional[ast.AST], _de
         return out
     if isinstance(coll, (ast.ListComp, ast.SetComp, ast.GeneratorExp)):
         return value_sources(ctx, frame, env, coll.elt, _depth + 1)
+    if isinstance(coll, ast.DictComp):
+        return value_sources(ctx, frame, env, coll.value, _depth + 1)
+    if isinstance(coll, ast.Dict):
+        out = set()
+        for x in coll.values:
+            out |= value_sources(ctx, frame, env, x, _depth + 1)
+        return out
     if isinstance(coll, ast.Call):
         fn = coll.func
         if isinstance(fn, ast.Name) and fn.id in ("list", "tuple", "set", "sorted", "reversed", "iter", "frozenset") and len(coll.args) == 1:
